@@ -77,7 +77,11 @@ def drive(case, rng, profile, test_ids=True, mutate=False, max_calls=80, script=
     if zlib.crc32(text.encode()) % 4 == 2:
         try:
             import kind_config
-            bystander = impl_run.ImplRun(render(kind_config.OTHER_PROGRAM), [gen_run_final()], [], test_ids=test_ids)
+            if zlib.crc32(text.encode()) % 8 == 6:
+                # another order of the SAME program text (same loops, same identifiers in test-id mode)
+                bystander = impl_run.ImplRun(text, [gen_run_final()], [], test_ids=test_ids)
+            else:
+                bystander = impl_run.ImplRun(render(kind_config.OTHER_PROGRAM), [gen_run_final()], [], test_ids=test_ids)
         except Exception:  # noqa: BLE001
             bystander = None
     out["bystander"] = bystander is not None
